@@ -19,8 +19,10 @@ namespace
     static const char* name() { return "Argyris"; }
     static constexpr int pdeg = 5;
     static constexpr bool h1 = true;      // documented H2-conforming, hence continuous
-    // conditioning guard: second-derivative functionals scale like 1/h^2 and the evaluator inverts an unscaled 21x21 monomial matrix per cell
-    static constexpr double dual_tol = 1e-6, poly_tol = 1e-8, trace_tol = 1e-8;
+    // conditioning guard: second-derivative functionals scale like 1/h^2 and the evaluator inverts an unscaled 21x21 monomial
+    // matrix per cell; duality / trace tolerances grow with (aspect ratio)^3 (and 1/hmin^2 for duality), see Monitors::run
+    static constexpr bool cond_scaled = true;
+    static constexpr double poly_tol = 1e-8;
     template<typename Shape_> static Index ndofs(const Counts& n) { return 6 * n.n[0] + n.n[1]; }
   };
   struct DBFS : DescBase
